@@ -231,10 +231,23 @@ def build_hpbf_bin(profile="release"):
     return os.path.join(BUILD, "cargo-repo", profile, "hpbf")
 
 
-def run_lines(exe, lines, timeout=3000, shards=None, args=None):
-    """Feed case lines to exe (sharded over cores), return result lines in order."""
+RETRY_KINDS = ("run", "rung", "runfail", "runir", "runbc", "tape", "tapefail", "svec", "expr", "cell")
+
+
+def run_lines(exe, lines, timeout=3000, shards=None, args=None, retry=True):
+    """Feed case lines to exe (sharded over cores), return result lines in order.
+    A per-case wall-clock timeout reported by the harness is re-run once on its own (single
+    shard, idle machine) before it is believed: a loaded machine must not look like a hang."""
     if not lines:
         return []
+    if retry:
+        out = run_lines(exe, lines, timeout=timeout, shards=shards, args=args, retry=False)
+        again = [i for i, o in enumerate(out) if o.startswith("timeout") and lines[i].split("|", 1)[0] in RETRY_KINDS]
+        if again and len(again) <= 64:
+            redo = run_lines(exe, [lines[i] for i in again], timeout=timeout, shards=1, args=args, retry=False)
+            for i, r in zip(again, redo):
+                out[i] = r
+        return out
     shards = shards or min(NPROC, max(1, len(lines) // 8))
     chunks = [lines[i::shards] for i in range(shards)]
     procs = []
